@@ -92,8 +92,20 @@ class RspHandler:
         crc2 = int(pkt[-2:], 16)
         if crc != crc2:
             raise ValueError(f"Checksum {crc} != {crc2}")
-        pkt = pkt[1:-3]
-        return pkt
+        # Undo the escaping of special characters (see rsp_pack):
+        data = ""
+        escaped = False
+        for c in pkt[1:-3]:
+            if escaped:
+                data += chr(ord(c) ^ 0x20)
+                escaped = False
+            elif c == "}":
+                escaped = True
+            else:
+                data += c
+        if escaped:
+            raise ValueError(f"bad escape sequence in packet {pkt}")
+        return data
 
 
 def decoder():
